@@ -1,7 +1,12 @@
 import TbbVerif.Core.Proto
+import TbbVerif.Model.C07
 
 open TbbVerif
 
-def drivers : List (String × Proto.Driver) := []
+def drivers : List (String × Proto.Driver) := [
+  ("c07buf", C07.driverBuf),
+  ("c07pipe", C07.driverPipe),
+  ("c07run", C07.driverRun)
+]
 
 def main (args : List String) : IO UInt32 := Proto.mainOf drivers args
